@@ -858,17 +858,15 @@ func init() {
 			}
 			c.check(okCopy, "Copy: fresh root map", p.pos(cp.Pos()), "the copy's root is EnvMap()'s fresh map", "Copy does not build its root scope from a fresh merged map: the copy shares scope maps with the original")
 			env := p.MustFn("(*vuego.Stack).EnvMap")
-			fresh := false
+			fresh := true
 			for _, r := range returnsOf(env) {
 				for _, o := range p.origins(r.Results[0], OriginOpts{}) {
-					if _, ok := o.(*ssa.MakeMap); ok {
-						fresh = true
-					} else {
+					if _, ok := o.(*ssa.MakeMap); !ok {
 						fresh = false
 					}
 				}
 			}
-			c.check(fresh, "EnvMap: returns a fresh map", p.pos(env.Pos()), "result is a map made in the call", "EnvMap may return one of the stack's own scope maps")
+			c.check(fresh, "EnvMap: returns a fresh map", p.pos(env.Pos()), "result is a map made in the call", "EnvMap may return one of the stack's own scope maps on some path: a Copy then shares that map with the original, so a Set on one side is visible on the other")
 		},
 	})
 }
